@@ -10,20 +10,29 @@
      J  2023-12-30 .. 2024-03-01   both, joined by all of January and February
                                    (long walks over empty days, missing month
                                    and year directories in one history)
-   In each, 8 slots hold the 16 table entries: entry 2k-1 is the successful,
-   2k the failed run completed at slot k.  The last day of Y and L holds no
-   entry: it is where `now` lives. *)
+   In each, 8 slots hold the 24 table entries: entry 2k-1 is the successful,
+   2k the failed and 16+k the invalid run (State.invalid: the worker raised
+   NoValidInput/OutputDataError) completed at slot k.  The last day of Y and L
+   holds no entry: it is where `now` lives.
+
+   ZoneOff: the UTC offsets (minutes) in which the bounds of a query are
+   written when it is replayed on the real code (tz-aware datetimes for find,
+   ISO strings for the front end); zone 1 is UTC. *)
 EXTENDS Chronicle
 
 TodMini == << <<0, 0, 0>>, <<6, 0, 0>>, <<12, 0, 0>>, <<18, 0, 0>>, <<23, 59, 59>> >>
 At(d, t) == (d - 1) * 5 + (t - 1)      \* t: 1 = 00:00:00, 2 = 06:00, 3 = 12:00, 4 = 18:00, 5 = 23:59:59
-EntOkMini == [e \in 1..16 |-> e % 2 = 1]
-BySlot(S) == [e \in 1..16 |-> S[(e + 1) \div 2]]
+EntStMini == [e \in 1..24 |-> IF e > 16 THEN "invalid" ELSE IF e % 2 = 1 THEN "success" ELSE "failure"]
+SlotOf(e) == IF e > 16 THEN e - 16 ELSE (e + 1) \div 2
+BySlot(S) == [e \in 1..24 |-> S[SlotOf(e)]]
+(* an invalid run is filed under the run id of the failed run of its slot *)
+WithInvalid(R) == R \o [k \in 1..8 |-> R[2 * k]]
+ZoneOff == <<0, 0 - 300, 330, 780, 0 - 660>>   \* UTC, -05:00, +05:30, +13:00, -11:00
 
-CandA == {1, 4, 5, 7, 10, 11, 14, 15}       \* 5 successes, 3 failures
-CandB == {2, 3, 6, 8, 9, 12, 13, 16}        \* the complement
-CandC == {1, 2, 5, 6, 7, 8, 9, 10, 13, 14}  \* both outcomes at the same instants
-CandS == {4, 5, 7, 11, 14}
+CandA == {1, 4, 5, 7, 21, 11, 14, 24}         \* 4 successes, 2 failures, 2 invalid (slots 5, 8)
+CandB == {17, 3, 6, 8, 9, 12, 23, 16}         \* other outcomes at the same slots
+CandC == {1, 2, 17, 7, 8, 20, 9, 10, 13, 14}  \* all three / both outcomes at the same instants
+CandS == {4, 5, 7, 11, 22}
 
 (* ---- Y: day 1 = 2023-12-30, 2 = 12-31, 3 = 2024-01-01, 4 = 01-02, 5 = 01-03 *)
 CalY == << <<2023, 12, 30>>, <<2023, 12, 31>>, <<2024, 1, 1>>, <<2024, 1, 2>>, <<2024, 1, 3>> >>
@@ -36,8 +45,9 @@ EntAtY == BySlot(<< At(1, 4),     \* 2023-12-30 18:00
                     At(4, 2),     \* 2024-01-02 06:00
                     At(4, 4) >>)  \* 2024-01-02 18:00
 (* 12-31 has 1.json with entries 3..6; 01-01 has 2.json (7, 8, 9) and 3.json (10, 11, 12) *)
-EntRunY == <<1, 1, 1, 1, 1, 1, 2, 2, 2, 3, 3, 3, 2, 2, 3, 3>>
-BoundsYQ == { At(1, 3), At(2, 2), At(2, 5), At(3, 1), At(3, 4), At(4, 1), At(4, 2), At(4, 5), At(5, 2) }
+EntRunY == WithInvalid(<<1, 1, 1, 1, 1, 1, 2, 2, 2, 3, 3, 3, 2, 2, 3, 3>>)
+BoundsYQ == { At(1, 3), At(2, 2), At(2, 5), At(3, 1), At(3, 2), At(3, 4), At(4, 2), At(4, 5), At(5, 2) }
+BoundsYM == { At(1, 3), At(2, 5), At(3, 2), At(3, 4), At(4, 2), At(4, 5) }   \* the quick model run
 NowsYQ == { At(5, 2) }              \* 2024-01-03 06:00
 NowsYT == { At(5, 2), At(5, 5) }    \* and 23:59:59
 
@@ -51,8 +61,8 @@ EntAtL == BySlot(<< At(1, 3),     \* 2024-02-28 12:00
                     At(3, 1),     \* 2024-03-01 00:00:00
                     At(3, 2),     \* 2024-03-01 06:00
                     At(3, 4) >>)  \* 2024-03-01 18:00
-EntRunL == <<1, 1, 1, 1, 2, 2, 2, 2, 3, 3, 3, 3, 3, 3, 4, 4>>
-BoundsLQ == { At(1, 1), At(1, 4), At(1, 5), At(2, 1), At(2, 4), At(3, 1), At(3, 3), At(3, 5), At(4, 2) }
+EntRunL == WithInvalid(<<1, 1, 1, 1, 2, 2, 2, 2, 3, 3, 3, 3, 3, 3, 4, 4>>)
+BoundsLQ == { At(1, 1), At(1, 4), At(1, 5), At(2, 1), At(2, 4), At(3, 1), At(3, 2), At(3, 5), At(4, 2) }
 NowsLQ == { At(4, 2) }              \* 2024-03-02 06:00
 NowsLT == { At(4, 2), At(4, 5) }
 
@@ -67,8 +77,8 @@ EntAtJ == BySlot(<< At(1, 4),     \* 2023-12-30 18:00
                     At(61, 4),    \* 2024-02-28 18:00
                     At(62, 3),    \* 2024-02-29 12:00
                     At(63, 2) >>) \* 2024-03-01 06:00
-EntRunJ == <<1, 1, 1, 1, 2, 2, 2, 3, 2, 2, 3, 3, 3, 3, 4, 4>>
-BoundsJQ == { At(1, 3), At(2, 2), At(3, 1), At(3, 4), At(4, 2), At(18, 3), At(62, 1), At(62, 5), At(63, 2) }
+EntRunJ == WithInvalid(<<1, 1, 1, 1, 2, 2, 2, 3, 2, 2, 3, 3, 3, 3, 4, 4>>)
+BoundsJQ == { At(1, 3), At(2, 2), At(3, 1), At(3, 2), At(3, 4), At(4, 2), At(18, 3), At(62, 1), At(62, 5), At(63, 2) }
 NowsJQ == { At(63, 3) }             \* 2024-03-01 12:00
 NowsJT == { At(63, 3), At(63, 5) }
 
